@@ -248,6 +248,11 @@ def corpus():
                               C("Bag", False, 0, [("ys", ("ann", ("list", ("cls", 1)), ("listSize", 1, 2))), ("u", ("union", ("cls", 2), "bool"))]),
                               C("Shelf", False, 0, [("zs", ("ann", ("list", ("cls", 0)), ("listSizeNoOps", 1, 2)))])],
                              0, [3, 4, 5, 6, 7, 8, 0, 1, 2], expansion))
+    # siblings that reach equally far down but cost different numbers of abstract expansions (a field of a CONCRETE type next to a
+    # field of an abstract type two levels above the same class), in expansion depthing
+    out.append(gram.Spec([C("Expr", True, None), C("Atom", True, 0), C("Lit", False, 1, [("v", ("ann", "int", ("intRange", 0, 9)))]),
+                          C("Neg", False, 0, [("e", ("cls", 0))]), C("Scale", False, 0, [("k", ("cls", 2)), ("e", ("cls", 0))]),
+                          C("Elacs", False, 0, [("e", ("cls", 0)), ("k", ("cls", 2))])], 0, [2, 3, 4, 5, 1], True))
     return out
 
 
@@ -317,7 +322,7 @@ def run(h: Harness):
     palette_programs(h)
     kinds_programs(h)
     for spec in corpus():
-        for _ in range(h.n(4, 20)):
+        for _ in range(h.n(6, 20)):
             exercise(h, spec, rng)
         h.count("corpus-grammars")
     # real dataclasses with attributes that are not constructor parameters (before and after the parameters): not children
